@@ -64,25 +64,34 @@ structure UnitTables (σ : Type) where
 /-- `FftResampler::new`: filter taps `sincs[0][n] / (2·fft_in)`, zero-padded to `2·fft_in`, transformed -/
 def UnitTables.make (cutoff : ρ) (fftIn fftOut : Nat) : UnitTables σ :=
   let z : σ := SNum.zero (ρ := ρ)
-  let sinc := (makeSincs (ρ := ρ) (σ := σ) fftIn 1 cutoff .blackmanHarris2).getD 0 #[]
-  let ft : Array σ := (Array.range (2 * fftIn)).map fun n =>
-    if n < fftIn then sinc.getD n z / SNum.ofNat (ρ := ρ) (2 * fftIn) else z
+  -- table arguments, tap divisor and padded length are the translator's (tie G7, `Formulas.fftUnit_*`)
+  let sinc := (makeSincs (ρ := ρ) (σ := σ) fftIn Formulas.fftUnit_sinc_factor cutoff Formulas.fftUnit_window).getD 0 #[]
+  let ft : Array σ := (Array.range (Formulas.fftUnit_filter_len (ρ := ρ) fftIn)).map fun n =>
+    if n < fftIn then sinc.getD n z / SNum.ofNat (ρ := ρ) (Formulas.fftUnit_tap_divisor (ρ := ρ) fftIn) else z
   let twIn := twiddles (ρ := ρ) (2 * fftIn)
   { fftIn, fftOut, twIn, twOut := twiddles (ρ := ρ) (2 * fftOut), filterF := rdft (ρ := ρ) twIn ft }
 
-/-- `resample_unit`: overlap state = the second half of the previous inverse transform -/
-def UnitTables.run (t : UnitTables σ) (overlap : Array σ) (waveIn : List σ) : List σ × Array σ :=
+/-- number of spectrum bins carried over from the input transform: `fft_in + 1` when up-sampling, `fft_out` otherwise
+(the Nyquist bin of the smaller transform is dropped when down-sampling or at equal sizes) -/
+def UnitTables.newLen (t : UnitTables σ) : Nat := if t.fftIn < t.fftOut then t.fftIn + 1 else t.fftOut
+
+/-- the `fft_out + 1` bins handed to the inverse transform: input spectrum × filter spectrum on the first `newLen` bins,
+exactly zero above -/
+def UnitTables.spectrumOut (t : UnitTables σ) (waveIn : List σ) : Array (σ × σ) :=
   let z : σ := SNum.zero (ρ := ρ)
   let x : Array σ := (Array.range (2 * t.fftIn)).map fun n => if n < t.fftIn then waveIn.getD n z else z
   let X := rdft (ρ := ρ) t.twIn x
-  let newLen := if t.fftIn < t.fftOut then t.fftIn + 1 else t.fftOut
-  let Y : Array (σ × σ) := (Array.range (t.fftOut + 1)).map fun k =>
-    if k < newLen then
+  (Array.range (t.fftOut + 1)).map fun k =>
+    if k < t.newLen then
       let a := X.getD k (z, z)
       let f := t.filterF.getD k (z, z)
       (a.1 * f.1 - a.2 * f.2, a.1 * f.2 + a.2 * f.1)
     else (z, z)
-  let y := irdft (ρ := ρ) t.twOut (2 * t.fftOut) Y
+
+/-- `resample_unit`: overlap state = the second half of the previous inverse transform -/
+def UnitTables.run (t : UnitTables σ) (overlap : Array σ) (waveIn : List σ) : List σ × Array σ :=
+  let z : σ := SNum.zero (ρ := ρ)
+  let y := irdft (ρ := ρ) t.twOut (2 * t.fftOut) (t.spectrumOut (ρ := ρ) waveIn)
   ((List.range t.fftOut).map fun n => y.getD n z + overlap.getD n z, y.extract t.fftOut (2 * t.fftOut))
 
 /-- the unit as an `FftUnit` (overlap state = array of `fft_out` samples, initially zero) -/
@@ -94,5 +103,38 @@ omit [STrig σ] in
 theorem UnitTables.run_length (t : UnitTables σ) (st : Array σ) (b : List σ) :
     (UnitTables.run (ρ := ρ) t st b).1.length = t.fftOut := by
   simp [UnitTables.run]
+
+omit [STrig σ] in
+/-- C02 (FFT types): every bin from `newLen` up to the Nyquist bin of the output transform is EXACTLY zero, for every
+input block and every arithmetic instance: nothing above `min(fft_in + 1, fft_out)` bins of the input spectrum reaches the
+output -/
+theorem UnitTables.spectrumOut_zero_above (t : UnitTables σ) (waveIn : List σ) (k : Nat)
+    (hk : t.newLen ≤ k) (hk' : k ≤ t.fftOut) :
+    (t.spectrumOut (ρ := ρ) waveIn)[k]? = some (SNum.zero (ρ := ρ), SNum.zero (ρ := ρ)) := by
+  have h1 : k < t.fftOut + 1 := by omega
+  have h2 : ¬ k < t.newLen := by omega
+  simp [UnitTables.spectrumOut, h1, h2]
+
+omit [STrig σ] in
+theorem UnitTables.spectrumOut_size (t : UnitTables σ) (waveIn : List σ) :
+    (t.spectrumOut (ρ := ρ) waveIn).size = t.fftOut + 1 := by
+  simp [UnitTables.spectrumOut]
+
+/-- the filter handed to the forward transform: `sincs(fft_in, 1, cutoff, BlackmanHarris2)[0][n] / (2·fft_in)` on the first
+`fft_in` points and exactly zero on the padding -/
+def filterTaps (cutoff : ρ) (fftIn : Nat) : Array σ :=
+  let z : σ := SNum.zero (ρ := ρ)
+  let sinc := (makeSincs (ρ := ρ) (σ := σ) fftIn 1 cutoff .blackmanHarris2).getD 0 #[]
+  (Array.range (2 * fftIn)).map fun n =>
+    if n < fftIn then sinc.getD n z / SNum.ofNat (ρ := ρ) (2 * fftIn) else z
+
+theorem UnitTables.make_filter (cutoff : ρ) (fftIn fftOut : Nat) :
+    (UnitTables.make (ρ := ρ) (σ := σ) cutoff fftIn fftOut).filterF =
+      rdft (ρ := ρ) (twiddles (ρ := ρ) (2 * fftIn)) (filterTaps (ρ := ρ) (σ := σ) cutoff fftIn) := rfl
+
+theorem filterTaps_padding (cutoff : ρ) (fftIn n : Nat) (h1 : fftIn ≤ n) (h2 : n < 2 * fftIn) :
+    (filterTaps (ρ := ρ) (σ := σ) cutoff fftIn)[n]? = some (SNum.zero (ρ := ρ)) := by
+  have : ¬ n < fftIn := by omega
+  simp [filterTaps, h2, this]
 
 end Rubato
